@@ -144,6 +144,9 @@ def mc_consts(ents=("e1",), clients=("c1",), policy="all", track=False, impl="Im
     }
 
 
+THOROUGH_BUDGET_S = int(os.environ.get("VERIF_TLC_BUDGET_S", "600"))
+
+
 PRINT_RE = re.compile(r'^<<"(\w+)", "(.*)">>$')
 
 
@@ -337,12 +340,17 @@ class CoreCheck:
     # ---- 1. exhaustive model checking of the designed protocol
     def model_check(self, name, consts, invariants, props=(), workers=8, timeout=900, module="MC_Core"):
         cfg = write_cfg(self.sd, f"{name}.cfg", consts, invariants, props, view=(module == "MC_Core"))
-        r = run_tlc_in(self.sd, module, cfg, self.wd, workers=workers, timeout=timeout)
+        # thorough instances that do not finish within their budget end by themselves (breadth first: every
+        # behaviour up to the depth reached has been checked); the evidence says whether the run was complete
+        budget = THOROUGH_BUDGET_S if timeout >= 1000 else None
+        r = run_tlc_in(self.sd, module, cfg, self.wd, workers=workers, timeout=(budget + 600 if budget else timeout),
+                       stop_after=budget)
         self.states += r["distinct"]
         self.transitions += r["states"]
         self.mc_runs.append({"config": name, "constants": {k: str(v) for k, v in consts.items()},
                              "invariants": list(invariants) + list(props), "states_generated": r["states"],
-                             "distinct": r["distinct"], "violated": r["violated"], "wall_s": round(r["wall"], 1)})
+                             "distinct": r["distinct"], "violated": r["violated"], "wall_s": round(r["wall"], 1),
+                             "complete": r["complete"], "states_left_on_queue": r["left"]})
         if r["violated"]:
             p = L.save_replay(self.pid, f"{name}-tlc-counterexample.txt", r["out"][-20000:])
             self.v.violation(p, f"TLC: the designed protocol violates {invariants} in {name}")
@@ -389,18 +397,32 @@ class CoreCheck:
 
     # ---- 3. trace validation of real executions
     def validate_profile(self, profile, runs, monitors_only=False, extra_monitors=(), extra_fields=(), known=()):
-        trace = os.path.join(self.wd, f"{profile}.ndjson")
-        lines, panics = simtrace(profile, runs, self.seed, trace)
-        diffs, viols, done = validate_trace(self.sd, trace, self.wd, monitors_only=monitors_only)
+        # large samples are generated and validated in chunks (the validator holds one file in memory)
+        CH = 400
+        tot = {"lines": 0, "panics": 0, "diffs": 0, "viols": 0, "mine": 0, "other": 0}
+        kf_hits, open_kf, trace = 0, {}, None
+        for ci, start in enumerate(range(0, runs, CH)):
+            n = min(CH, runs - start)
+            trace = os.path.join(self.wd, f"{profile}.{ci}.ndjson" if runs > CH else f"{profile}.ndjson")
+            lines, panics = simtrace(profile, n, self.seed + 7919 * ci, trace, timeout=1800)
+            diffs, viols, done = validate_trace(self.sd, trace, self.wd, monitors_only=monitors_only,
+                                                timeout=max(600, lines // 100))
+            mine_v = [x for x in viols if self.pid in MONITOR_PROPS.get(x["prop"], []) or x["prop"] in extra_monitors]
+            mine_d = [] if monitors_only else [x for x in diffs if self.pid in props_of_diff(x)
+                                               or diff_field(x).rsplit(".", 1)[0] in extra_fields]
+            tot["lines"] += lines
+            tot["panics"] += panics
+            tot["diffs"] += done["diffs"]
+            tot["viols"] += done["viols"]
+            tot["mine"] += len(mine_v) + len(mine_d)
+            tot["other"] += len(viols) - len(mine_v) + len(diffs) - len(mine_d)
+            k, open_kf = self._report(trace, profile if runs <= CH else f"{profile}.{ci}", "", mine_v + mine_d, known)
+            kf_hits += k
+        lines, other = tot["lines"], tot["other"]
         self.traces += runs
         self.trace_events += lines
-        mine_v = [x for x in viols if self.pid in MONITOR_PROPS.get(x["prop"], []) or x["prop"] in extra_monitors]
-        mine_d = [] if monitors_only else [x for x in diffs if self.pid in props_of_diff(x)
-                                           or diff_field(x).rsplit(".", 1)[0] in extra_fields]
-        other = len(viols) - len(mine_v) + len(diffs) - len(mine_d)
-        self.profiles[profile] = {"runs": runs, "events": lines, "diffs": done["diffs"], "viols": done["viols"],
-                                  "attributed_to_this_property": len(mine_v) + len(mine_d), "panics": panics}
-        kf_hits, open_kf = self._report(trace, profile, "", mine_v + mine_d, known)
+        self.profiles[profile] = {"runs": runs, "events": lines, "diffs": tot["diffs"], "viols": tot["viols"],
+                                  "attributed_to_this_property": tot["mine"], "panics": tot["panics"]}
         if known and profile.startswith("kf_") and kf_hits == 0 and open_kf:
             self.notes.append(f"{profile}: the scripted history of {sorted(open_kf)} no longer violates the property "
                               f"- known_findings.json is out of date")
@@ -432,42 +454,59 @@ class CoreCheck:
                            simulate=f"num={num}", depth=depth, seed=self.seed)
         else:
             cfg = write_cfg(self.sd, f"{name}.cfg", consts, list(invariants) + ["EmitInv"], view=True)
-            r = run_tlc_in(self.sd, "MC_Core", cfg, self.wd, workers=8, timeout=timeout)
+            budget = THOROUGH_BUDGET_S if timeout >= 1000 else None
+            r = run_tlc_in(self.sd, "MC_Core", cfg, self.wd, workers=8, timeout=(budget + 600 if budget else timeout),
+                           stop_after=budget)
             self.states += r["distinct"]
             self.transitions += r["states"]
             self.mc_runs.append({"config": name, "constants": {k: str(v) for k, v in consts.items()},
                                  "invariants": list(invariants), "states_generated": r["states"],
                                  "distinct": r["distinct"], "violated": r["violated"], "wall_s": round(r["wall"], 1),
-                                 "every_settled_state_replayed_on_the_real_apps": True})
+                                 "complete": r["complete"], "states_left_on_queue": r["left"],
+                                 "every_settled_state_replayed_on_the_real_apps": r["complete"]})
             if r["violated"]:
                 p = L.save_replay(self.pid, f"{name}-tlc-counterexample.txt", r["out"][-20000:])
                 self.v.violation(p, f"TLC: the designed protocol violates {list(invariants)} in {name}")
         behs = [b for tag, b in parse_prints(r["out"]) if tag == "REPLAY"]
         if not behs:
             raise L.ToolError(f"{name}: TLC produced no settled behaviour")
-        bfile = os.path.join(self.wd, f"{name}.behaviours.ndjson")
-        with open(bfile, "w") as f:
-            for b in behs:
-                f.write(json.dumps(b) + "\n")
         unq = lambda s: [x.strip().strip('"') for x in s.strip("{}").split(",") if x.strip()]
         cfgj = {"ents": unq(consts["Ent"]), "clients": unq(consts["Client"]), "policy": consts["Policy"].strip('"'),
                 "track": consts["Track"] == "TRUE", "rel": "relate" in consts["OpKinds"], "max_size": [1200] * len(unq(consts["Client"])),
                 "auth": "none", "timeout_ms": int(consts["Timeout"]), "events": False}
         cfile = os.path.join(self.wd, f"{name}.cfg.json")
         json.dump(cfgj, open(cfile, "w"))
-        trace = os.path.join(self.wd, f"{name}.replayed.ndjson")
-        out = L.run([L.harness_bin("replay"), "behaviours", cfile, bfile, trace], timeout=timeout).stdout
-        summary = json.loads(out.strip().splitlines()[-1])
-        diffs, viols, done = validate_trace(self.sd, trace, self.wd)
-        self.traces += summary["runs"]
-        self.trace_events += done["lines"]
-        mine_v = [x for x in viols if self.pid in MONITOR_PROPS.get(x["prop"], []) or x["prop"] in extra_monitors]
-        mine_d = [x for x in diffs if self.pid in props_of_diff(x) or x["kind"] == "enabled"
+        # replayed and validated in chunks (the validator holds one file in memory)
+        CH = 2500
+        tot = {"runs": 0, "not_enabled": 0, "lines": 0, "diffs": 0, "viols": 0}
+        mine_v, mine_d, trace = [], [], None
+        for ci in range(0, len(behs), CH):
+            bfile = os.path.join(self.wd, f"{name}.{ci // CH}.behaviours.ndjson")
+            with open(bfile, "w") as f:
+                for b in behs[ci:ci + CH]:
+                    f.write(json.dumps(b) + "\n")
+            trace = os.path.join(self.wd, f"{name}.{ci // CH}.replayed.ndjson")
+            out = L.run([L.harness_bin("replay"), "behaviours", cfile, bfile, trace], timeout=max(timeout, 1200)).stdout
+            summary = json.loads(out.strip().splitlines()[-1])
+            diffs, viols, done = validate_trace(self.sd, trace, self.wd, timeout=max(timeout, 1200))
+            tot["runs"] += summary["runs"]
+            tot["not_enabled"] += summary["not_enabled"]
+            tot["lines"] += done["lines"]
+            tot["diffs"] += done["diffs"]
+            tot["viols"] += done["viols"]
+            cv = [x for x in viols if self.pid in MONITOR_PROPS.get(x["prop"], []) or x["prop"] in extra_monitors]
+            cd = [x for x in diffs if self.pid in props_of_diff(x) or x["kind"] == "enabled"
                   or diff_field(x).rsplit(".", 1)[0] in extra_fields]
+            kf_hits_c, _ = self._report(trace, f"{name}.{ci // CH}", "replayed TLC behaviour: ", cv + cd, known)
+            tot["kf"] = tot.get("kf", 0) + kf_hits_c
+            mine_v += cv
+            mine_d += cd
+        self.traces += tot["runs"]
+        self.trace_events += tot["lines"]
         self.profiles[name + " (TLC behaviours replayed)"] = {
-            "behaviours": summary["runs"], "events": done["lines"], "diffs": done["diffs"], "viols": done["viols"],
-            "not_enabled_in_real_apps": summary["not_enabled"], "attributed_to_this_property": len(mine_v) + len(mine_d)}
-        kf_hits, _ = self._report(trace, name, "replayed TLC behaviour: ", mine_v + mine_d, known)
+            "behaviours": tot["runs"], "events": tot["lines"], "diffs": tot["diffs"], "viols": tot["viols"],
+            "not_enabled_in_real_apps": tot["not_enabled"], "attributed_to_this_property": len(mine_v) + len(mine_d)}
+        kf_hits = tot.get("kf", 0)
         if known:
             self.profiles[name + " (TLC behaviours replayed)"]["runs_matching_known_findings"] = kf_hits
         self.samples.append({"kind": "TLC-generated behaviour replayed on the real apps", "steps": behs[0][:14]})
